@@ -1,0 +1,16 @@
+//go:build verif
+
+package rcmgr
+
+import "github.com/libp2p/go-libp2p/core/network"
+
+// VerifGC runs one collection pass over unused scopes, exactly what the manager's background
+// goroutine does once a minute, so that the verification harness can place a collection at a
+// chosen point of a concurrent history. It reports whether m is a manager of this package.
+func VerifGC(m network.ResourceManager) bool {
+	r, ok := m.(*resourceManager)
+	if ok {
+		r.gc()
+	}
+	return ok
+}
